@@ -140,8 +140,15 @@ func H08_self() {
 	f1 := sv.Choice("fix@", 3)
 	p1, p2 := power("bp@"), power("bp#")
 	ops := []oper.Operator{{Kind: "@", BP: p1, Fixity: fixityOf(f1)}, {Kind: "#", BP: p2, Fixity: oper.INFIX_L}}
-	ctx := sv.Choice("context", 4)
-	src := [...]string{"a @ b @ c", "a @ b @ c # d", "d # a @ b @ c", "(a @ b @ c)"}[ctx]
+	ctx := sv.Choice("context", 6)
+	src := [...]string{"a @ b @ c", "a @ b @ c # d", "d # a @ b @ c", "(a @ b @ c)", "p => a @ b @ c # d", "p => a @ b @ c"}[ctx]
+	if ctx >= 4 {
+		// '=>' is right-associative and looser than both: the chain sits in
+		// its right operand, where '#' may follow it
+		p3 := power("bp=>")
+		sv.Assume(p3 < p1 && p3 < p2)
+		ops = append(ops, oper.Operator{Kind: "=>", BP: p3, Fixity: oper.INFIX_R})
+	}
 	shape, class := parseWith(ops, src)
 	switch f1 {
 	case 2:
@@ -154,6 +161,13 @@ func H08_self() {
 		if ctx == 0 || ctx == 3 {
 			sv.Assert("right-assoc-chain", class == "ok" && shape == "(a @ (b @ c))")
 		}
+	}
+	if ctx == 4 && f1 != 2 && p1 > p2 {
+		want := "(p => (((a @ b) @ c) # d))"
+		if f1 == 1 {
+			want = "(p => ((a @ (b @ c)) # d))"
+		}
+		sv.Assert("chain-inside-a-right-operand-then-looser-operator", class == "ok" && shape == want)
 	}
 	if ctx == 1 && f1 != 2 && p1 > p2 {
 		want := "(((a @ b) @ c) # d)"
@@ -261,6 +275,10 @@ var builtinCases = []shapeCase{
 
 var rejectCases = []string{
 	"a < b < c", "a == b == c", "a < b < c || d", "d || a < b < c", "a != b != c && d", "a <= b <= c + 1",
+	// a chain inside the right operand of a right-associative construct, followed there by a looser operator
+	"x ? y : a == b == c || d", "x ? y : a < b < c && d", "x ? a == b == c || d : y", "x ^ (a) ^ b < c < d || e",
+	// a comma must be followed by an argument
+	"f(a,)", "f(a, b,)", "a.f(b,)", "f(a)(b,)", "f(,)", "f(,a)", "f(a,,b)", "-f(a + b,) * c",
 	"a +", "* a", "a b", "(a", "a)", "[a, b", "{x a}", "f(a,", "a ? b", "a ? b :", "a . ", "[a: b, c]", "a ]", "",
 }
 
